@@ -80,12 +80,24 @@ class _SubroutineDeclByOption:
         decl = self.option_map[fp_option]
         if decl is not None:
             return decl
-        self.option_map[fp_option] = self.option_method[fp_option].evaluate(
-            self.subroutine
-        )
+        # Declarations of callees that get evaluated and cached while this one is being
+        # evaluated must not survive if this evaluation fails: on a retry this routine's
+        # slots would be younger than theirs, while in a fresh process they are older.
+        nested: list[tuple["_SubroutineDeclByOption", bool]] = []
+        _SubroutineDeclByOption._recorders.append(nested)
+        try:
+            decl = self.option_method[fp_option].evaluate(self.subroutine)
+        except BaseException:
+            for decls, option in nested:
+                decls.option_map[option] = None
+            raise
+        finally:
+            _SubroutineDeclByOption._drop_recorder(nested)
+        self.option_map[fp_option] = decl
         if _SubroutineDeclByOption._recorders:
+            _SubroutineDeclByOption._recorders[-1].extend(nested)
             _SubroutineDeclByOption._recorders[-1].append((self, fp_option))
-        return cast(SubroutineDeclaration, self.option_map[fp_option])
+        return decl
 
     def __probe_info(self, fp_option: bool) -> tuple[bool, TealType]:
         starting_slot_id = ScratchSlot.nextSlotId
